@@ -38,3 +38,15 @@ impl Default for Null { #[verifier::external_body] fn default() -> (r: Null) ens
 impl Default for OctetString { #[verifier::external_body] fn default() -> (r: OctetString) ensures r.id == 4, r.class == TagClass::Universal, r.inner@ == Seq::<u8>::empty() { unimplemented!() } }
 impl Default for Sequence { #[verifier::external_body] fn default() -> (r: Sequence) ensures r.id == 16, r.class == TagClass::Universal, r.inner@ == Seq::<Tag>::empty() { unimplemented!() } }
 impl Default for Set { #[verifier::external_body] fn default() -> (r: Set) ensures r.id == 17, r.class == TagClass::Universal, r.inner@ == Seq::<Tag>::empty() { unimplemented!() } }
+
+// the real lber types derive Clone (and PartialEq); mirrored so that a change which clones a value is still decided
+impl Clone for StructureTag { #[verifier::external_body] fn clone(&self) -> (r: StructureTag) ensures r == *self { unimplemented!() } }
+impl Clone for PL { #[verifier::external_body] fn clone(&self) -> (r: PL) ensures r == *self { unimplemented!() } }
+impl Clone for Tag { #[verifier::external_body] fn clone(&self) -> (r: Tag) ensures r == *self { unimplemented!() } }
+impl Clone for OctetString { #[verifier::external_body] fn clone(&self) -> (r: OctetString) ensures r == *self { unimplemented!() } }
+impl Clone for Sequence { #[verifier::external_body] fn clone(&self) -> (r: Sequence) ensures r == *self { unimplemented!() } }
+impl Clone for Set { #[verifier::external_body] fn clone(&self) -> (r: Set) ensures r == *self { unimplemented!() } }
+impl Clone for Integer { #[verifier::external_body] fn clone(&self) -> (r: Integer) ensures r == *self { unimplemented!() } }
+impl Clone for Enumerated { #[verifier::external_body] fn clone(&self) -> (r: Enumerated) ensures r == *self { unimplemented!() } }
+impl Clone for Boolean { #[verifier::external_body] fn clone(&self) -> (r: Boolean) ensures r == *self { unimplemented!() } }
+impl Clone for Null { #[verifier::external_body] fn clone(&self) -> (r: Null) ensures r == *self { unimplemented!() } }
